@@ -139,6 +139,10 @@ def run(ctx):
     if ctx.replay and json.load(open(ctx.replay))["scenario"].get("leg") == "g2-cancel":
         g_cancel.leg(ctx)
         return
+    if ctx.replay and json.load(open(ctx.replay))["scenario"].get("kind") == "concurrent":
+        import c14
+        c14.concurrent_bodies(ctx)
+        return
     # ---- 1. design: machine == contract, three-way agreement, order, termination
     mc = ctx.tlc("Echo", ctx.pick("MC_Echo_q.cfg", "MC_Echo_t.cfg"), timeout=3000, heap="12g")
     ctx.notes["mc_design"] = dict(distinct=mc.distinct, generated=mc.generated, cfg=ctx.pick("MC_Echo_q.cfg", "MC_Echo_t.cfg"))
@@ -298,6 +302,10 @@ def run(ctx):
                         "the full_duplex flag of the first message agrees with the stream type (otherwise the documented client and server rules deadlock: MC_Echo_x_flag)",
                         "an e2e rejection is reported only when the same permutation is rejected three times (the next two runs, or three of up to 20 runs: schedule_dependent)"]
     if not ctx.replay:
+        # the reference client's verdict on a response includes its wire examination, which reads what the tracer
+        # captured while the RPCs run in parallel: "what a trace carries is that call's own" is BodyTrace's binding
+        import c14
+        c14.concurrent_bodies(ctx)
         # growth item: EchoCancel.tla (client cancellation and timeouts) bound to the reference and grpc-go peers
         g_cancel.leg(ctx)
         ctx.cov["rule"] += " " + ctx.notes.pop("g2_rule", "")
